@@ -1,6 +1,14 @@
-"""C06 (and C11 Wishbone part): Wishbone shared interconnect / crossbar, G-mode."""
-from ..gcheck import GFamily, run_batches
+"""C06 (and C11 Wishbone part): Wishbone shared interconnect / crossbar, G-mode; L2 lane (DESIGN.md section 9):
+register-level model specs/wbic/WbIcModel.tla, conformance to every edge of the G-mode graphs and to random runs of
+4x4 instances, M-mode beyond the G-mode sizes, drift-triggered escalation."""
+import json
+import random
+
+from ..gcheck import GFamily, run_batches, schedule_from_trace, linear_replay
+from .. import l2
+from .. import tracecheck
 from ..families import wbic as fam
+from ..families import wbic_l2 as wl
 
 C06_INVS = ["RoutedByAddress", "OwnerStable", "AnswerToIssuerOnly", "ReadDataFromAnsweringSlave",
             "NoLostTermination", "BoundedWait"]
@@ -17,11 +25,176 @@ for k in list(CLAUSE_MAP):
     pass
 
 
+# ----------------------------------------------------------------------------- L2 lane (DESIGN.md section 9)
+L2_ASSUME = ("L2 (specs/wbic/WbIcModel.tla): register-level model of RoundRobin(SP_WITHDRAW), Arbiter, Decoder (with and "
+             "without registered select), WaitTimer/Timeout, InterconnectShared, Crossbar and InterconnectPointToPoint with "
+             "the test bench; it gives no verdict - every edge of the complete G-mode graphs and every cycle of random runs "
+             "of 4x4 instances must be reproduced by the model (else MODEL-DRIFT and escalation), and the model is checked "
+             "against the same environment and clauses in M-mode at sizes beyond G-mode")
+
+
+def l2_state():
+    return {"graph_cases": 0, "graph_duts": 0, "drifts": [], "proj_errors": []}
+
+
+def l2_on_accept(state, log=print):
+    """hook of gcheck.run_batches: the complete graphs of an accepted batch go to the model conformance check"""
+    def cb(gl):
+        bad = set()
+        pool = gl._pool()
+        for g in gl.duts:       # a register the model names may no longer exist in a changed tree: that is drift, not a crash
+            try:
+                pool.map(l2._wproj, [(g.spec_json, wl.LANE.proj_path)])
+            except (KeyError, TypeError, ValueError, AttributeError) as ex:
+                bad.add(json.dumps(g.spec, sort_keys=True))
+                state["proj_errors"].append({"spec": g.spec, "error": str(ex)})
+        lane = wl.LANE if not bad else l2.Lane(
+            wl.LANE.name, wl.LANE.conf_module,
+            lambda s_, c_: None if json.dumps(s_, sort_keys=True) in bad else wl.model_cfg(s_, c_),
+            wl.LANE.proj_path, m_module=wl.LANE.m_module)
+        duts = l2.graph_cases(gl, lane)
+        n, dr = l2.conformance(lane, duts, workers=4)
+        log("  L2: %d DUT(s), %d edges judged against the model, %d drift(s)" % (len(duts), n, len(dr) + len(bad)))
+        state["graph_cases"] += n
+        state["graph_duts"] += len(duts) - len(dr)
+        state["drifts"] += dr
+    return cb
+
+
+def _l2_runs(prop, report, tier, seed, state, invs):
+    """random legal runs of instances larger than any G-mode graph: every cycle judged by the model (conformance) and by
+    the L1 trace module (a failure there is a verdict about the real netlist)"""
+    rnd = random.Random(seed * 6151 + 29)
+    nrun, ncyc = (2, 300) if tier == "quick" else (6, 1500)
+    duts, traces, meta = [], [], []
+    for x in wl.run_configs(tier, prop):
+        for _ in range(nrun):
+            try:
+                ev, reset, cases = wl.random_run(x["spec"], x["c"], ncyc, rnd, shim=FAMILY.shim)
+            except (KeyError, TypeError, AttributeError) as ex:
+                state["proj_errors"].append({"spec": x["spec"], "error": str(ex)})
+                break
+            duts.append({"spec": x["spec"], "m": x["m"], "reset": reset, "cases": cases})
+            traces.append({"cfg": dict(x["c"], stallbound=10 ** 6), "ev": ev})
+            meta.append(x["spec"])
+    n, dr = l2.conformance(wl.LANE, duts, workers=4)
+    seen = set()
+    for d_ in dr:       # one note per DUT is enough
+        k = json.dumps(d_["spec"], sort_keys=True)
+        if k not in seen:
+            seen.add(k)
+            state["drifts"].append(d_)
+    tinv = [CLAUSE_MAP[i] for i in invs]
+    fails, st = tracecheck.validate(FAMILY.trace_module, traces, tinv) if traces else ([], {"states": 0})
+    report.add(traces_validated_against_impl=len(traces), trace_states=st["states"])
+    for f in fails:
+        spec, tr = meta[f["tid"]], traces[f["tid"]]
+        report.violation({"dut": spec, "clause": f["clause"]},
+                         {"family": FAMILY.graph_module, "factory": FAMILY.factory_path, "spec": spec, "cfg": tr["cfg"],
+                          "schedule": [e[0] for e in tr["ev"][:f["l"]]], "trace_module": FAMILY.trace_module,
+                          "trace_invariants": tinv, "observed": tr["ev"][:f["l"]], "clause": f["clause"]},
+                         "%s violated by %s in a random run at cycle %s" % (f["clause"], FAMILY.describe(spec), f["l"]))
+    return len({json.dumps(d_["spec"], sort_keys=True) for d_ in duts}), n
+
+
+def run_l2(prop, report, tier, seed, state, invs, props, gprop=None):
+    """(a) graph conformance happened in the G-mode batches (state); (b) model and L1 trace module against every cycle of
+    random runs of 4x4 instances; (c) M-mode: model x Env x the clauses of this property beyond the G-mode sizes;
+    (d) a drifting kind of interconnect is explored against the L1 contract at the thorough tier's parameters."""
+    gprop = gprop or prop
+    report.assume(L2_ASSUME)
+    # (b)
+    rduts, rn = _l2_runs(gprop, report, tier, seed, state, invs)
+    report.add(l2_model={"module": "wbic/WbIcModel", "graph_duts_conformant": state["graph_duts"],
+                         "graph_edges_judged": state["graph_cases"], "run_duts": rduts, "run_cycles_judged": rn})
+    # (c)
+    mcfgs = wl.mmode_configs(tier, gprop)
+    mprops = list(props)
+    res = l2.mmode(wl.LANE.m_module, [{"c": x["c"], "m": x["m"]} for x in mcfgs], invs, mprops,
+                   timeout=1500 if tier == "quick" else 5400)
+    report.add(states=res.distinct, transitions=res.generated)
+    report.cov["l2_model"].update({
+        "mmode_configs": len(mcfgs), "mmode_states": res.distinct, "mmode_transitions": res.generated,
+        "mmode_wall_s": round(res.wall, 1), "mmode_clauses": list(invs) + mprops,
+        "mmode_sizes": sorted({"%s %dx%d%s%s" % (x["m"]["kind"], x["m"]["n"], x["m"]["ns"], " registered" if x["m"]["register"] else "",
+                                                 " time-out %d" % x["m"]["timeout"] if x["m"]["timeout"] else "") for x in mcfgs})})
+    if res.violated:
+        # a counterexample on the model: it counts only if the real netlist shows it too
+        x = mcfgs[res.trace[0]["vars"]["d"] - 1]
+        prefix, loop = schedule_from_trace(res)
+        clause = res.temporal_name if res.violated == "temporal" else res.violated
+        sched = list(prefix) + (list(loop) * 40 if loop else [])
+        ev = linear_replay(FAMILY.factory_path, x["spec"], sched, shim=FAMILY.shim)
+        tcfg = dict(x["c"], stallbound=max(1, len(loop) * 40) if loop else 10 ** 6)
+        tinv = [CLAUSE_MAP[clause]] if clause in CLAUSE_MAP else [CLAUSE_MAP[i] for i in invs]
+        fails, _ = tracecheck.validate(FAMILY.trace_module, [{"cfg": tcfg, "ev": ev}], tinv)
+        if fails:
+            report.violation({"dut": x["spec"], "clause": fails[0]["clause"], "gclause": clause},
+                             {"family": FAMILY.graph_module, "factory": FAMILY.factory_path, "spec": x["spec"], "cfg": tcfg,
+                              "schedule": [list(i) for i in sched[:2000]], "trace_module": FAMILY.trace_module,
+                              "trace_invariants": tinv, "observed": ev[:2000], "clause": fails[0]["clause"]},
+                             "%s violated by %s (found on the L2 model in M-mode, reproduced on the netlist) after %d cycles" % (
+                                 fails[0]["clause"], FAMILY.describe(x["spec"]), len(prefix)))
+        else:
+            report.note("MODEL-DRIFT wbic: M-mode counterexample to %s on the model of %s does not reproduce on the netlist" % (
+                clause, FAMILY.describe(x["spec"])))
+            report.add(l2_model_drifts=1)
+    # (d)
+    for e in state["proj_errors"]:
+        report.note("MODEL-DRIFT wbic: the registers of the L2 model are no longer those of the netlist of %s (%s); no verdict, "
+                    "the L1 checks of the real netlist decide" % (json.dumps(e["spec"], sort_keys=True), e["error"]))
+    report.add(l2_model_drifts=len(state["proj_errors"]))
+    l2.report_drifts(report, wl.LANE, state["drifts"])
+    drifting = [d_["spec"] for d_ in state["drifts"]] + [e["spec"] for e in state["proj_errors"]]
+    if drifting and tier == "quick" and not report.violations:
+        # nothing has been reported yet although the code is no longer what was model-checked: look deeper
+        kinds = {s_["kind"] for s_ in drifting}
+        have = {json.dumps(s_, sort_keys=True) for s_, _ in fam.configs("quick", gprop)}
+        esc = [(s_, c_) for s_, c_ in fam.configs("thorough", gprop)
+               if s_["kind"] in kinds and json.dumps(s_, sort_keys=True) not in have]
+        report.note("escalation: %d thorough-tier configuration(s) of %s explored against the L1 contract" % (len(esc), sorted(kinds)))
+        if esc:
+            run_batches(FAMILY, report, [esc[i:i + 3] for i in range(0, len(esc[:6]), 3)], invs, props, spec_budget=300000)
+
+
+def run_canary(report, spec, prop_clause, log=print):
+    """sensitivity of the liveness clause: an interconnect whose arbiter never moves the grant (built in memory by the
+    factory, canary="stuck_grant") MUST be rejected by it, and the lasso must reproduce in linear replay and be judged
+    by WbIcTrace!BoundedService; else the check has lost its sensitivity (machinery failure)"""
+    from ..graphloop import GraphLoop
+    from ..report import MachineryError
+    cfg = fam.tla_cfg(spec)
+    gl = GraphLoop(FAMILY.graph_module, FAMILY.factory_path, [(spec, cfg)], invariants=[], properties=[prop_clause],
+                   hint=fam.Hint(), spec_name=FAMILY.spec_name, shim=FAMILY.shim, fmt=FAMILY.fmt, spec_budget=300000, log=log)
+    try:
+        res = gl.run()
+        nstates = len(gl.duts[0].states)
+    finally:
+        gl.close()
+    if res.violated != "temporal" or (res.temporal_name and res.temporal_name != prop_clause):
+        raise MachineryError("canary %s (arbiter that never moves the grant) was not rejected by %s: the check has lost "
+                             "its sensitivity" % (FAMILY.describe(spec), prop_clause))
+    prefix, loop = schedule_from_trace(res)
+    unroll = nstates + 2
+    ev = linear_replay(FAMILY.factory_path, spec, list(prefix) + list(loop) * unroll, shim=FAMILY.shim)
+    fails, _ = tracecheck.validate(FAMILY.trace_module, [{"cfg": dict(cfg, stallbound=max(1, len(loop) * unroll)), "ev": ev}],
+                                   [CLAUSE_MAP[prop_clause]])
+    if not fails:
+        raise MachineryError("canary %s: the lasso found by %s does not fail %s in linear replay" % (
+            FAMILY.describe(spec), prop_clause, CLAUSE_MAP[prop_clause]))
+    report.add(canaries_detected=1)
+    report.note("canary %s with an arbiter that never moves the grant violates %s (lasso: %d + %d cycles, confirmed by %s in "
+                "linear replay), as it must" % (FAMILY.describe(spec), prop_clause, len(prefix), len(loop), CLAUSE_MAP[prop_clause]))
+
+
 def run(prop, report, tier, seed):
     cfgs = fam.configs(tier, "C06")
+    run_canary(report, dict(kind="shared", n=2, m=1, map="all", hole=False, rw=0, errs=0, canary="stuck_grant"), "Served")
+    l2s = l2_state()
     report.assume("masters hold a strobed request until terminated (Wishbone classic); slaves answer only when they "
                   "see cyc&stb, combinationally or after any latency; liveness assumes fair slaves and finite bus cycles")
     stats = run_batches(FAMILY, report, [cfgs[i:i + 5] for i in range(0, len(cfgs), 5)], C06_INVS, C06_PROPS,
-                        spec_budget=300000)
+                        spec_budget=300000, on_accept=l2_on_accept(l2s))
     report.add(duts_explored=len(stats), clauses=C06_INVS + C06_PROPS, per_dut=stats)
+    run_l2(prop, report, tier, seed, l2s, C06_INVS, C06_PROPS, gprop="C06")
     report.cov["exhaustive"] = True
